@@ -493,7 +493,7 @@ fn program(rng: &mut Rng) -> Image {
     let (bytes, stack) = match rng.below(4) {
         0 => (port_writer(rng), 16),
         1 => {
-            let irq = IrqOpts { enable_key: true, di_windows: rng.bool(), nested_ei: false, isr_work: rng.bool(), enable_by_store: rng.bool(), mask_windows: false };
+            let irq = IrqOpts { enable_key: true, di_windows: rng.bool(), nested_ei: false, isr_work: rng.bool(), enable_by_store: rng.bool(), mask_windows: false, mid_stop: false };
             let o = HazardOpts { len: 6 + rng.usize(20), wild: false, run_into_io: false, with_ei: true, irq: Some(irq) };
             (gen::hazard_program(rng, o), 32)
         }
